@@ -4,6 +4,7 @@ import (
 	"fmt"
 	"go/constant"
 	"go/token"
+	"go/types"
 	"strings"
 
 	"golang.org/x/tools/go/ssa"
@@ -323,6 +324,13 @@ func (c *Ctx) signEFIVariableRules() {
 	}
 	var authObj dval
 	haveAuth := false
+	// object identity of the descriptor is judged through carrier structs
+	through := func(v ssa.Value, fr *frame) dval {
+		old := dv.throughFields
+		dv.throughFields = true
+		defer func() { dv.throughFields = old }()
+		return dv.resolve(v, fr)
+	}
 	if !haveBuf {
 		c.R.Infof("I3.order", fname, "signed-buffer", c.IPos(sign), "not decided for this shape: the signed content is not the Bytes() of a buffer filled with encoding/binary.Write")
 	} else {
@@ -363,7 +371,7 @@ func (c *Ctx) signEFIVariableRules() {
 					bad = append(bad, "fourth value is not the descriptor's timestamp")
 				} else if ld, ok := ir.StripConv(ws[3].datum.v).(*ssa.UnOp); ok {
 					if fa, ok := ld.X.(*ssa.FieldAddr); ok {
-						authObj, haveAuth = dv.resolve(fa.X, ws[3].datum.fr), true
+						authObj, haveAuth = through(fa.X, ws[3].datum.fr), true
 					}
 				}
 				// payload: bytes of a buffer that m.Marshal filled
@@ -470,7 +478,7 @@ func (c *Ctx) signEFIVariableRules() {
 				resBuf = dv.objectOf(ld.X, resBuf.fr)
 			}
 			if haveAuth {
-				ro := dv.resolve(ir.StripConv(r.Results[0]), dv.root)
+				ro := through(ir.StripConv(r.Results[0]), dv.root)
 				if ir.StripConv(ro.v) != ir.StripConv(authObj.v) {
 					bad = append(bad, "the descriptor returned is not the one whose timestamp was signed")
 				}
@@ -499,7 +507,20 @@ func (c *Ctx) signEFIVariableRules() {
 			dst = dv.objectOf(ct.X, dst.fr)
 		}
 		if haveRes && dst.same(resBuf) {
-			into = append(into, marshalCall{di, isDesc, dv.resolve(ir.StripConv(args[0]), di.fr)})
+			if isIface {
+				// the receiver may be the running element of a literal list of parts
+				for _, alt := range dv.alternatives(args[0], di.fr) {
+					rv := dval{ir.StripConv(ir.StripIface(alt.v)), alt.fr}
+					rv = through(rv.v, rv.fr)
+					t := rv.v.Type()
+					if p, isP := t.Underlying().(*types.Pointer); isP {
+						t = p.Elem()
+					}
+					into = append(into, marshalCall{di, ir.NamedTypeID(t) == sigPkg+".EFIVariableAuthentication2", rv})
+				}
+				continue
+			}
+			into = append(into, marshalCall{di, isDesc, through(ir.StripConv(args[0]), di.fr)})
 		}
 	}
 	switch {
